@@ -90,6 +90,16 @@ C03_KANI_THOROUGH = [_h(f"c03::{h}", timeout=7200, mem_gb=8, bound=_C03_B + "2")
                      for h in ["c03_layered_h2_two", "c03_flooding_h1_one", "c03_flooding_h1", "c03_layered_h1", "c03_layered_h2", "c03_flooding_h1u_l1", "c03_layered_h1u",
                                "c03_flooding_h1_l1", "c03_layered_h2_l1"]]
 # c03_flooding_h2 (3x4 matrix, limit 2) did not finish in 50 min: not registered
+AMIN_FL = [n for n in NAMES if n.startswith("Aminstari8")]
+AMIN_HL = [n for n in NAMES if n.startswith("HLAminstari8")]
+_FIX_BOUND = "BOUNDED cross-check: A-Min* 8-bit decoder, fixed 2x3 matrix, all f64 LLRs with |x| <= 1e30, iteration limit fixed as named"
+C01_KANI_QUICK = C01_KANI_QUICK + [_h("c01::c01_h1_l1__Aminstari8", timeout=800, mem_gb=5, bound=_FIX_BOUND),
+                                   _h("c01::c01_h1_l2__HLAminstari8", timeout=800, mem_gb=5, bound=_FIX_BOUND)]
+C01_KANI_THOROUGH = C01_KANI_THOROUGH + [_h(f"c01::c01_h1_l{l}__{n}", timeout=3600, mem_gb=5, bound=_FIX_BOUND) for n in AMIN_FL + AMIN_HL for l in (1, 2)]
+C10_KANI_QUICK = C10_KANI_QUICK + [_h("c01::c10_h1_1_1__HLAminstari8", timeout=800, mem_gb=5, bound=_HIST_BOUND)]
+C10_KANI_THOROUGH = (C10_KANI_THOROUGH
+                     + [_h(f"c01::c10_h1_1_0__{n}", timeout=3600, mem_gb=6, bound=_HIST_BOUND) for n in AMIN_FL + AMIN_HL]
+                     + [_h(f"c01::c10_h1_1_1__{n}", timeout=5400, mem_gb=6, bound=_HIST_BOUND) for n in ["Aminstari8"] + AMIN_HL])
 C17_KANI = [_h(f"c17::{n}", mem_gb=5, timeout=1500,
                bound="BOUNDED stand-in: one concrete scenario on a fixed 2x3 or 3x2 matrix; never counted as proved")
             for n in ["c17_views_fixed", "c17_set_row_wide_repeat", "c17_set_row_wide_other", "c17_set_row_tall_empty",
